@@ -7,7 +7,7 @@
    reader/extraction layer are covered by the correspondence run and the
    sanitizer oracle of this check, not yet by theorems. *)
 From Lhasa Require Import Base DecBase Generated InputStream Header BasicReader Reader P_HeaderSafe P_BitReader P_AnyDecoder P_ReaderSafe.
-From Lhasa Require P_Lh1.
+From Lhasa Require P_Lh1 P_CliNoFault.
 Local Open Scope N_scope.
 
 (* the only well-formedness needed: the lead-in buffer holds at most 24 bytes *)
@@ -73,6 +73,21 @@ Proof. exact (P_ReaderSafe.reader_history_never_faults_len P_Lh1.lh1_inv_len P_L
 Theorem decoder_callback_never_overfills : cb_len_bounded decoder_callback.
 Proof. exact decoder_callback_len_bounded. Qed.
 
+(* ---- the tool (src/main.c, extract.c, filter.c, list.c over the library) ----
+   lha_main never reaches an invalid access, for ANY command line, archive bytes, standard
+   input and initial filesystem.  The tool layer has no access of its own that could fail
+   (file_full_path tests path and filename for NULL as the C does); it drives the reader
+   inside the API protocol (one check or extract per entry), so the reader theorem applies.
+   lt_ok localtime: the month number libc's localtime returns is 0..11 (ISO C) -- needed only
+   by the list commands (months[tm_mon] in src/list.c); without it:
+   lha_main_never_faults_no_clock for t, x, e, p and the help page. *)
+Theorem lha_main_never_faults : ltac:(let t := type of P_CliNoFault.lha_main_never_faults in exact t).
+Proof. exact P_CliNoFault.lha_main_never_faults. Qed.
+Theorem lha_main_never_faults_no_clock : ltac:(let t := type of P_CliNoFault.lha_main_never_faults_no_clock in exact t).
+Proof. exact P_CliNoFault.lha_main_never_faults_no_clock. Qed.
+Theorem cli_run_never_faults : ltac:(let t := type of P_CliNoFault.cli_run_never_faults in exact t).
+Proof. exact P_CliNoFault.cli_run_never_faults. Qed.
+
 Print Assumptions header_parser_never_faults.
 Print Assumptions header_parser_returns.
 Print Assumptions sfx_scan_returns.
@@ -82,3 +97,6 @@ Print Assumptions archive_iteration_no_fault.
 Print Assumptions archive_iteration_returns.
 Print Assumptions reader_history_never_faults.
 Print Assumptions decoder_callback_never_overfills.
+Print Assumptions lha_main_never_faults.
+Print Assumptions lha_main_never_faults_no_clock.
+Print Assumptions cli_run_never_faults.
